@@ -48,7 +48,7 @@ ASSUMPTIONS = [
     "taken immediately before store_unreplicated_flowir_to_disk()",
     "packages that the repository rejects at creation are discarded (counted under label rejected:*)",
 ]
-TIERS = {"quick": {"shards": 8, "budget": 110}, "thorough": {"shards": 16, "budget": 1500}}
+TIERS = {"quick": {"shards": 8, "budget": 150}, "thorough": {"shards": 16, "budget": 1500}}
 
 PATCH_KEYS = {"args": "#command.arguments", "var": G.POOL[0], "newvar": "pvar",
               "walltime": "#resourceManager.config.walltime"}
@@ -143,17 +143,15 @@ def _read(path):
 
 
 # ------------------------------------------------------------------------------------------------------------
-def _patch_paths(patched, node):
-    """Key paths of configurationForNode() that a recorded patch of `node` may legitimately explain."""
-    out = set()
+def _patch_explains(patched, node, path):
+    """Can a recorded patch of `node` explain a difference at key path `path` of configurationForNode()?"""
     for kind in patched.get(node, ()):
         key = PATCH_KEYS[kind]
-        if key.startswith("#"):
-            out.add(key[1:])
-        else:
-            out.add("variables." + key)
-            out.add("command.arguments")        # a variable is visible through the arguments that use it
-    return out
+        if not key.startswith("#"):
+            return True             # a variable is visible through every text of the component that refers to it
+        if path == key[1:] or path.endswith("." + key[1:]):         # the option itself, also inside override.<p>
+            return True
+    return False
 
 
 def _stale_condition_edges(case, nodes):
@@ -202,8 +200,7 @@ def compare(w, l, patched, where, case, ctx):
         d = _diff(w["conf"][n], l["conf"][n])
         if not d:
             continue
-        explained = _patch_paths(patched, n)
-        other = [x for x in d if x[0] not in explained]
+        other = [x for x in d if not _patch_explains(patched, n, x[0])]
         if other:
             p = other[0][0]
             top = p.split(".")
@@ -514,7 +511,7 @@ class _Quiet:
 
 
 def shard(ctx: Ctx):
-    explore(ctx, "roundtrip", G.cases(), check, ctx.n(2400, 60000), batch=30, shrink=False, minimize=minimize)
+    explore(ctx, "roundtrip", G.cases(), check, ctx.n(1600, 60000), batch=30, shrink=False, minimize=minimize)
 
 
 def replay(sub, case, ctx: Ctx):
